@@ -626,6 +626,15 @@ def compute_threads(an):
                 continue
             if k is not None:
                 res.append((e.node, k))
+            elif isinstance(boolneg, tuple) and boolneg[0] == "payload" and v[0] == "agg" and variant_index(an, v) == boolneg[1] \
+                    and boolneg[2] < len(v[2]) and v[2][boolneg[2]][0] == "phi" and depth < 12 \
+                    and (v[2][boolneg[2]][1] == e.src or straight(v[2][boolneg[2]][1], e.src)) \
+                    and len(cfg.in_edges[v[2][boolneg[2]][1]]) >= 2:
+                # Ok(flag) where the flag itself was joined just before (`Ok(matches!(..))`)
+                p2 = v[2][boolneg[2]]
+                sub, suball = classify(p2[1], p2[2], boolneg[3], depth + 1)
+                res += sub
+                allk = allk and suball
             elif v[0] == "phi" and v != ("phi", J, L) and depth < 12 and v[1] != J and \
                     (v[1] == e.src or straight(v[1], e.src)) and len(cfg.in_edges[v[1]]) >= 2:
                 sub, suball = classify(v[1], v[2], boolneg, depth + 1)
